@@ -437,6 +437,7 @@ impl Context {
 
     pub fn emit_task(&self, task: &Arc<Task>) -> Result<()> {
         debug!("ctx::emit_task, task={:?}", task);
+        task.mark_emitted();
 
         // on workflow start
         if let NodeContent::Workflow(_) = &task.node().content {
